@@ -63,6 +63,12 @@ quoted     Tor >= 0.4.3 appends ``SOCKS_USERNAME="..." SOCKS_PASSWORD="..."`` (Q
            credentials.  ``snew`` / ``launch`` carry them as ``su`` / ``sp`` (the wire form,
            quotes included).  ``Ev.quoted_space`` marks lines where such a value contains a blank:
            what a client that splits the line on blanks makes of that VALUE is unspecified.
+flow       Tor >= 0.4.7 (congestion control) also sends ``XOFF_SENT / XOFF_RECV / XON_SENT /
+           XON_RECV`` STREAM lines for an established stream (control-spec 4.1.2).  They are not
+           life-cycle transitions; action ``flow`` emits one for a SUCCEEDED stream, the model's
+           status stays what it was and ``state_unjudged`` is set until the next life-cycle line:
+           what a client shows as the status after such a line is left open by the properties,
+           everything else about the stream is not.
 pairs      a connect stream that fails before its SOCKS request was answered is reported twice by
            Tor: ``STREAM n FAILED ..`` (from connection_ap_handshake_socks_reply) and, when the
            connection is finally closed, ``STREAM n CLOSED ..`` with the same reason
@@ -266,6 +272,7 @@ class SimStream(object):
         self.reported_remap = None     # address of the last REMAP reported
         self.last_keywords = {}
         self.client_attached = False   # the controller has been told a circuit (and no DETACHED since)
+        self.state_unjudged = False    # the last line was a flow-control line (XOFF/XON)
         self.moved_unjudged = False    # Tor moved it to another circuit without DETACHED; see module docstring
         self.moved_from = None         # (circuit id, uid) it was on before that
         self.moved_ids = set()         # ids of all circuits it has been moved between since
@@ -790,6 +797,8 @@ class TorSim(object):
         self._need(not s.marked and not s.circ_dead, "marked or on dead circuit")
         if a == "cwait":
             self._need(not s.circ and s.status in ("NEW", "NEWRESOLVE", "DETACHED", "REMAP"))
+        elif a == "flow":
+            self._need(s.succeeded and s.circ and act["status"] in ("XOFF_SENT", "XOFF_RECV", "XON_SENT", "XON_RECV"))
         elif a == "move":
             c = self.circuits[act["circ"]]
             self._need(s.circ and not s.succeeded and s.status in ("SENTCONNECT", "SENTRESOLVE"))
@@ -921,13 +930,15 @@ class TorSim(object):
 
     # streams -----------------------------------------------------------------
     def _stream_event(self, s, status, circ, kw=()):
+        if self.reporting:
+            s.state_unjudged = False
         text, kwd = self.stream_line(s, status, circ, kw)
         ev = Ev("STREAM", s.id, s.uid, status, text, kwd)
         if self.reporting:
             if not s.reported:
                 ev.first_sight = True
                 s.reported = True
-                s.first_seen = "event-" + status
+                s.first_seen = "event-" + ("flow-control-line" if status.startswith(("XOFF", "XON")) else status)
                 s.reported_target = (s.cur_host, s.port)
                 if status not in ("NEW", "NEWRESOLVE"):
                     self._count("stream_first_seen_in_mid_life")
@@ -991,6 +1002,18 @@ class TorSim(object):
             s.reported_remap = act["addr"]
         if ev.attach:
             ev.expect.append(("stream_attach", ev.attach))
+        return [ev]
+
+    def _do_flow(self, act):
+        s = self.streams[act["id"]]
+        before = s.status
+        ev = self._stream_event(s, act["status"], s.circ)
+        if ev.attach:                      # first line that tells the controller the stream's circuit
+            ev.expect.append(("stream_attach", ev.attach))
+        s.status = before                  # not a life-cycle status
+        if self.reporting:
+            s.state_unjudged = True
+        self._count("flow_control_lines")
         return [ev]
 
     def _do_move(self, act):
@@ -1241,6 +1264,8 @@ class TorSim(object):
                         out.append((4.0, {"a": "succeed", "id": s.id}))
                     out.append((1.3, {"a": "detach", "id": s.id, "reason": rnd.choice(["TIMEOUT", "END", "EXITPOLICY", "RESOLVEFAILED"]),
                                       "remote": rnd.choice([None, None] + STREAM_REMOTE)}))
+            if s.succeeded and s.circ and rnd.random() < 0.3:
+                out.append((1.0, {"a": "flow", "id": s.id, "status": rnd.choice(["XOFF_SENT", "XON_SENT", "XOFF_RECV", "XON_RECV"])}))
             reason = rnd.choice(STREAM_REASONS)
             remote = rnd.choice(STREAM_REMOTE) if reason == "END" and rnd.random() < 0.7 else None
             if s.succeeded or s.kind == "resolve" or rnd.random() < 0.5:
@@ -1363,7 +1388,7 @@ def selftest(n=300, seed=1):
     import random
     import re
     circ_re = re.compile(r"^\d+ (LAUNCHED|EXTENDED|BUILT|GUARD_WAIT|CLOSED|FAILED)( \$[0-9A-F]{40}([~=]\w+)?(,\$[0-9A-F]{40}([~=]\w+)?)*)?( .*)?$")
-    stream_re = re.compile(r"^\d+ (NEW|NEWRESOLVE|REMAP|SENTCONNECT|SENTRESOLVE|SUCCEEDED|FAILED|CLOSED|DETACHED|CONTROLLER_WAIT) \d+ \S+:\d+( .*)?$")
+    stream_re = re.compile(r"^\d+ (NEW|NEWRESOLVE|REMAP|SENTCONNECT|SENTRESOLVE|SUCCEEDED|FAILED|CLOSED|DETACHED|CONTROLLER_WAIT|XOFF_SENT|XOFF_RECV|XON_SENT|XON_RECV) \d+ \S+:\d+( .*)?$")
     total = 0
     for k in range(n):
         rnd = random.Random("%s/%s" % (seed, k))
